@@ -30,7 +30,7 @@ def hyp_tokens(n=2):
     return [(bytes.fromhex(t), d) for t, d in toks]
 
 
-def base_setup(with_hyp=True, routers=((1, 50000), (2, 0))):
+def base_setup(with_hyp=True, routers=((1, 50000), (2, 0), (2147483648, 0), (4294967295, 7))):
     lines = ["setup -"]
     toks = []
     if with_hyp:
@@ -335,6 +335,14 @@ def mutations(doc, r=None, limit=None):
     out = []
     paths = [p for p in _paths(doc) if p]
     for path in paths:
+        cur = _get(doc, path)
+        if isinstance(cur, str) and cur.isdigit():
+            # spellings of a number a lenient parser may or may not accept
+            for v in (" " + cur, cur + " ", "\t" + cur + "\n", "+" + cur, "0" + cur, cur[0] + "_" + cur[1:] if len(cur) > 1 else cur + "_", hex(int(cur)), "-" + cur, cur + ".0", cur + "e0"):
+                out.append(json.dumps(_set(doc, path, v), separators=(",", ":")))
+        if isinstance(cur, int) and not isinstance(cur, bool):
+            for v in (str(cur), " %d" % cur, -cur - 1, cur + 2 ** 32, float(cur)):
+                out.append(json.dumps(_set(doc, path, v), separators=(",", ":")))
         for w in WRONG:
             out.append(json.dumps(_set(doc, path, w), separators=(",", ":")))
         out.append(json.dumps(_del(doc, path), separators=(",", ":")))
